@@ -650,3 +650,69 @@ func refs(v ssa.Value) []ssa.Instruction {
 	}
 	return out
 }
+
+// ---- seeing through single-purpose helpers -------------------------------------
+
+// callEnv binds the parameters of an inlined-for-analysis helper to the
+// arguments of the call being looked through.
+type callEnv map[*ssa.Parameter]ssa.Value
+
+func (e callEnv) resolve(v ssa.Value) ssa.Value {
+	for i := 0; i < 8; i++ {
+		p, ok := v.(*ssa.Parameter)
+		if !ok || e == nil {
+			return v
+		}
+		a, ok := e[p]
+		if !ok {
+			return v
+		}
+		v = a
+	}
+	return v
+}
+
+// seeThrough: v is result #idx of a call of a servitor function all of whose
+// returns agree on one SSA value for that result (typically a helper with a
+// single return statement); returns that value and the parameter binding.
+func seeThrough(P *Program, v ssa.Value, outer callEnv) (ssa.Value, callEnv, bool) {
+	idx := 0
+	var call *ssa.Call
+	switch x := v.(type) {
+	case *ssa.Call:
+		call = x
+	case *ssa.Extract:
+		c, ok := x.Tuple.(*ssa.Call)
+		if !ok {
+			return nil, nil, false
+		}
+		call, idx = c, x.Index
+	default:
+		return nil, nil, false
+	}
+	sc := call.Call.StaticCallee()
+	if sc == nil || !P.IsServitorFunc(sc) || len(sc.Blocks) == 0 {
+		return nil, nil, false
+	}
+	var ret ssa.Value
+	for _, b := range sc.Blocks {
+		r, ok := b.Instrs[len(b.Instrs)-1].(*ssa.Return)
+		if !ok || idx >= len(r.Results) {
+			continue
+		}
+		if ret != nil && r.Results[idx] != ret {
+			return nil, nil, false
+		}
+		ret = r.Results[idx]
+	}
+	if ret == nil {
+		return nil, nil, false
+	}
+	env := callEnv{}
+	for i, p := range sc.Params {
+		if i < len(call.Call.Args) {
+			env[p] = outer.resolve(call.Call.Args[i])
+		}
+	}
+	return ret, env, true
+}
